@@ -244,7 +244,7 @@ struct Gen<'a> {
 
 const GOOD_KEYS: [&str; 10] = ["k", "key", "action", "a_b", "x", "\u{e9}", " x ", "xy", "ab ", "\u{200b}"];
 const BAD_KEYS: [&str; 8] = ["", " ", "\t\n", "_", "_x", " _x", "\u{a0}", "_contract_address"];
-const GOOD_TYPES: [&str; 10] = ["ab", "xy", "\u{e9}", " ab ", "transfer", "wasm", "a b", "wasm-ab", "wasm-", "execute"];
+const GOOD_TYPES: [&str; 14] = ["ab", "xy", "\u{e9}", " ab ", "transfer", "wasm", "a b", "wasm-ab", "wasm-", "execute", "_ab", "__", "  _padded ", "message"];
 const BAD_TYPES: [&str; 6] = ["", "a", " a ", "\u{a0}a", "  ", "\t"];
 const IDS: [u64; 6] = [0, 1, 2, 7, u64::MAX, 1];
 const KEY_POOL: [&[u8]; 10] = [b"", b"\x00", b"a", b"a\x00", b"ab", b"b", b"\xff", b"\xff\xff", b"k1", b"contract_data/"];
